@@ -531,3 +531,17 @@ Example create_threaded_fail_example : create_threaded 3 [Exc 7; Ok 5; Ok 6] [2;
 Proof. vm_compute. reflexivity. Qed.
 Example imap_start_example : imap_start 2 true [Ok 1; Ok 2; Ok 3] [0; 1; 2] 1 (Some 1) = ([], Some E_START).
 Proof. vm_compute. reflexivity. Qed.
+
+(* ---- the blocking get of _fetch_results never waits for a result that cannot come *)
+Lemma fetch_get_returns s : fetch_cond false s = true -> get_can_return s = true.
+Proof.
+  unfold fetch_cond, get_can_return. destruct s as [u r d q]; cbn [untaken running undone inq].
+  destruct q as [|q]; cbn [Nat.eqb negb]; [|intros _; reflexivity].
+  rewrite orb_false_r. cbn [orb]. destruct u as [|u]; cbn [Nat.eqb negb Nat.add]; [discriminate | reflexivity].
+Qed.
+
+(* with `unfinished_tasks` as loop condition the consumer enters get() after the last result when the worker
+   has put it but not yet called task_done(): nothing will ever be put again *)
+Lemma fetch_unfinished_blocks :
+  exists s, fetch_cond true s = true /\ get_can_return s = false.
+Proof. exists {| untaken := 0; running := 0; undone := 1; inq := 0 |}. split; reflexivity. Qed.
